@@ -324,7 +324,7 @@ def _malformed_seq(run, count):
 def _lossless(run, n_streams, caps_per_stream, stream_name="insitu-lossless"):
     rng = run.rng
     for i in range(n_streams):
-        style = ["plain", "deep", "extrabits", "arbdeep"][i % 4]
+        style = ["plain", "deep", "extrabits", "arbdeep", "extradeep"][i % 5]
         W, H, data, facts = V.build_lossless(rng, style)
         variants = [("valid", data)]
         k = rng.random()
@@ -359,7 +359,7 @@ def _insitu_files(run, n, caps_per_file=4):
     """whole .webp files (RIFF + VP8L chunk) through webpsan::sanitize under the capacity hook"""
     rng = run.rng
     for i in range(n):
-        W, H, data, _ = V.build_lossless(rng, ["plain", "deep", "extrabits", "arbdeep"][i % 4])
+        W, H, data, _ = V.build_lossless(rng, ["plain", "deep", "extrabits", "arbdeep", "extradeep"][i % 5])
         variants = [("valid", data)]
         if len(data) > 4:
             variants.append(("trunc", data[:rng.randint(1, len(data) - 1)]))
